@@ -70,7 +70,8 @@ ASSUMPTIONS = [
     "solve_first_order / solve_steady / simulate / kalman_filter are abstract deterministic functions of (invariant, one variant's values) in the model; "
     "the harness checks functional consistency and bit equality on the implementation",
     "the `_variants` list object is folded into the model object (the heap walk checks that no two model objects share a list)",
-    "Sequential and RedVAR are covered by the behavioural oracles only (no Lean model of their object layout)",
+    "Sequential and RedVAR are covered by operation histories with behavioural oracles and the heap walk only (no Lean model of their object layout); "
+    "what RedVAR.copy shares on purpose (invariant, cached _companion_T, fitted periods) is not demanded to be disjoint: no operation can write into it",
 ]
 
 KCH = {
